@@ -887,7 +887,10 @@ class FileStorage(
             self._file.truncate(self._pos)
             self._files.flush()
             self._nextpos = 0
-            self._blob_tpc_abort()
+        # Blob files are moved into place by storeBlob() and undo(), i.e.
+        # before the vote: they have to go whenever the transaction is
+        # aborted, not only when it had been voted.
+        self._blob_tpc_abort()
 
     def _undoDataInfo(self, oid, pos, tpos):
         """Return the tid, data pointer, and data for the oid record at pos
